@@ -169,6 +169,11 @@ def gen_sweep(kind, arg=0):
             return {"refs": refs, "records": recs, "payload": 0xFF00}
         text = ["", None, "@HD\tVN:1.6\n" + "@CO\t" + "z" * 70000 + "\n"][arg]
         return {"refs": refs, "records": [_base(i, ref=i % 2) for i in range(4)], "payload": 0xFF00, "text": text}
+    elif kind == "long_seq":
+        # l_seq and block_size beyond 16 bits
+        recs = [_base(0, seq="".join(ref.SEQ_CODE[(k * 7 + k // 16) % 16] for k in range(arg)), qual=[(k * 5 + k // 94) % 94 for k in range(arg)],
+                      cigar=[["M", arg]]), _base(1, ref=1, seq="TTG", qual=[5, 6, 7])]
+        return {"refs": refs, "records": recs, "payload": 0xFF00}
     elif kind == "large_cigar":
         recs = [_base(0, cigar=[[OPS[k % 9], 1 + k % 3] for k in range(arg)], seq="ACGN", qual=[0, 1, 93, 40]),
                 _base(1, ref=1, cigar=[["M", 3]], seq="TT", qual=[5, 6])]
@@ -637,11 +642,11 @@ def file_specs(tier):
           ("qual", 0), ("cigar1", 0), ("cigar2", 0), ("ncigar", 20 if quick else 60), ("tags", 20 if quick else 40),
           ("newline_tail", 0), ("newline_tail", 1), ("newline_tail", 2), ("newline_tail", 3), ("empty", 0), ("empty", 2), ("refs", 0), ("refs", 1), ("refs", 2), ("refs", 3),
           ("header", 0), ("header", 1), ("header", 2), ("header", 3),
-          ("large_cigar", 255), ("large_cigar", 16383), ("large_cigar", 16384)]
+          ("long_seq", 70001), ("large_cigar", 255), ("large_cigar", 16383), ("large_cigar", 16384)]
     if not quick:
         sw += [("seq3", 0), ("cigar3", 0), ("large_cigar", 256), ("large_cigar", 65535), ("empty", 1), ("empty", 3)]
     for kind, arg in sw:
-        big = kind in ("seq3", "cigar3", "large_cigar", "namelen", "seqlen") or (kind == "header" and arg >= 2)
+        big = kind in ("seq3", "cigar3", "large_cigar", "long_seq", "namelen", "seqlen") or (kind == "header" and arg >= 2)
         out.append(({"gen": ["sweep", kind, arg]}, "min" if big else "boundary", "few"))
     # single-record files over a reduced shape grid
     for nl, nc, ls, tl in itertools.product([1, 2, 254], [0, 1, 4], range(8), [0, 5]):
@@ -674,7 +679,7 @@ def run(tier="quick", seed=0):
                     "parameter); non-trivial = every case except 0-record files")
     col.bounds = {"references": "0..3 (+300 in one header case)", "read_name_len": "1..254",
                   "n_cigar_op": "0..4 grid, 0..%d sweep, 255, 16383, 16384%s" % (20 if quick else 60, "" if quick else ", 256, 65535"),
-                  "cigar_ops": "all nine; lengths " + str(CLEN), "l_seq": "0..%d grid, 0..%d sweep" % (7 if quick else 9, 40 if quick else 300),
+                  "cigar_ops": "all nine; lengths " + str(CLEN), "l_seq": "0..%d grid, 0..%d sweep, 70001" % (7 if quick else 9, 40 if quick else 300),
                   "quality": "0..93", "tag_bytes": "0, 4..%d (well-formed Z / C / i fields)" % (20 if quick else 40), "records_per_file": "0..8 (sweeps up to 4096)",
                   "chunk_size": "every size in [largest record, total+2] for chunk-sweep files; record-boundary sizes otherwise",
                   "write": "whole, every mask / permutation / slice for n<=4, two calls, chunk stream", "bgzf_block_payload": PAYLOADS,
@@ -692,8 +697,6 @@ def run(tier="quick", seed=0):
             if quick and i >= 40:
                 break
             if time.time() - col.t0 > limit:
-                if quick:
-                    col.exhaustive = False
                 break
             spec = gen_random(col.rng, big=(i % 10 == 9))
             spec["id"] = "random-%d" % i       # explicit spec: replay needs no generator
